@@ -37,7 +37,8 @@ Record st := mk {
   offset : nat; end_ : nat; eof : bool; nerr : nat;
   bufSize : nat;
   sc : script; stream : list byte;
-  reads_after_err : nat
+  reads_after_err : nat;
+  del : list byte          (* ghost: every byte handed over by the reader so far *)
 }.
 
 Definition cur (s : st) : list byte := last (heap s) [].
@@ -61,11 +62,11 @@ Definition entry (s : st) : option (option token * st) :=
     match index_nl (slice (cur s) (offset s) (end_ s)) with
     | Some eol =>
         Some (Some (tok_dropcr s (offset s) (offset s + eol)),
-              mk (heap s) (offset s + eol + 1) (end_ s) (eof s) (nerr s) (bufSize s) (sc s) (stream s) (reads_after_err s))
+              mk (heap s) (offset s + eol + 1) (end_ s) (eof s) (nerr s) (bufSize s) (sc s) (stream s) (reads_after_err s) (del s))
     | None =>
         if eof s then
           Some (Some (length (heap s) - 1, offset s, end_ s),
-                mk (heap s) (end_ s) (end_ s) (eof s) (nerr s) (bufSize s) (sc s) (stream s) (reads_after_err s))
+                mk (heap s) (end_ s) (end_ s) (eof s) (nerr s) (bufSize s) (sc s) (stream s) (reads_after_err s) (del s))
         else None
     end
   else if eof s then Some (None, s) else None.
@@ -73,7 +74,7 @@ Definition entry (s : st) : option (option token * st) :=
 Definition grow (s : st) : st :=
   if length (cur s) <=? end_ s then
     let nb := slice (cur s) (offset s) (end_ s) ++ repeat 0%N (bufSize s) in
-    mk (heap s ++ [nb]) 0 (end_ s - offset s) (eof s) (nerr s) (bufSize s) (sc s) (stream s) (reads_after_err s)
+    mk (heap s ++ [nb]) 0 (end_ s - offset s) (eof s) (nerr s) (bufSize s) (sc s) (stream s) (reads_after_err s) (del s)
   else s.
 
 (* one Read call: consumes one script entry (or synthesises (0,EOF) when script is empty) *)
@@ -83,7 +84,8 @@ Definition do_read (s : st) : (nat * rerr * st) :=
   let n := Nat.min want (Nat.min cap (length (stream s))) in
   let d := firstn n (stream s) in
   (n, e, mk (set_cur (heap s) (write_at (cur s) (end_ s) d)) (offset s) (end_ s + n) (eof s) (nerr s)
-            (bufSize s) rest (skipn n (stream s)) (reads_after_err s)).
+            (bufSize s) rest (skipn n (stream s))
+            (reads_after_err s + (if eof s then 1 else 0)) (del s ++ d)).
 
 (* read loop, structurally recursive on fuel (= length of script + 1 suffices) *)
 Fixpoint read_loop (fuel : nat) (s : st) : option (option token * st) :=
@@ -98,12 +100,12 @@ Fixpoint read_loop (fuel : nat) (s : st) : option (option token * st) :=
         | Some eol =>
             let e_ := end_ s - n + eol in
             Some (Some (tok_dropcr s (offset s) e_),
-                  mk (heap s) (e_ + 1) (end_ s) (eof s) (nerr s) (bufSize s) (sc s) (stream s) (reads_after_err s))
+                  mk (heap s) (e_ + 1) (end_ s) (eof s) (nerr s) (bufSize s) (sc s) (stream s) (reads_after_err s) (del s))
         | None => read_loop fuel s
         end
     | _ =>
         let s' := mk (heap s) (offset s) (end_ s) true (nerr s + match e with RErr => 1 | _ => 0 end)
-                     (bufSize s) (sc s) (stream s) (reads_after_err s) in
+                     (bufSize s) (sc s) (stream s) (reads_after_err s) (del s) in
         entry s'   (* goto RESTART: with eof set, entry always decides *)
     end
   end.
@@ -115,7 +117,7 @@ Definition scan (s : st) : option (option token * st) :=
   end.
 
 Definition init (bs : nat) (scr : script) (str : list byte) : st :=
-  mk [repeat 0%N bs] 0 0 false 0 bs scr str 0.
+  mk [repeat 0%N bs] 0 0 false 0 bs scr str 0 [].
 
 (* scan everything; returns tokens' contents AT RETURN TIME, the tokens, final state *)
 Fixpoint scan_all (fuel : nat) (s : st) (acc : list (token * list byte)) : option (list (token * list byte) * st) :=
